@@ -4,6 +4,7 @@
 package vhook
 
 import (
+	"context"
 	"net"
 	"time"
 )
@@ -45,6 +46,14 @@ func (d *Dialer) Dial(network, address string) (net.Conn, error) {
 		return nil, &net.OpError{Op: "dial", Net: network}
 	}
 	return (&net.Dialer{Timeout: d.Timeout, KeepAlive: d.KeepAlive}).Dial(network, address)
+}
+
+func (d *Dialer) DialContext(ctx context.Context, network, address string) (net.Conn, error) {
+	if network == "verif-probe" {
+		Probed = d
+		return nil, &net.OpError{Op: "dial", Net: network}
+	}
+	return (&net.Dialer{Timeout: d.Timeout, KeepAlive: d.KeepAlive}).DialContext(ctx, network, address)
 }
 
 // TimeScale > 1 makes the timing wrappers below run that much faster than
